@@ -14,7 +14,8 @@ KEYS = {"NOTONCE": "a suspended task did not continue exactly once", "TWICE": "a
 
 
 def pdesc(c):
-    return "seed %d, task_arena(%d), %d suspending tasks, resume from %s%s" % (c[0], c[1], c[2], ["callback/foreign thread/task (mixed)", "the suspend callback", "a foreign thread", "another task", "a foreign thread 1-40 ms later (the suspending thread has gone to sleep)"][c[3]], ", nested suspensions" if c[4] else "")
+    return "seed %d, task_arena(%d), %d suspending tasks, resume from %s%s" % (c[0], c[1], c[2], ["callback/foreign thread/task (mixed)", "the suspend callback", "a foreign thread", "another task", "a foreign thread 1-40 ms later (the suspending thread has gone to sleep)", "a foreign thread while another task of the arena waits for the suspended task's group",
+                                                                                   "a foreign thread while another task waits for the suspended task's group inside this_task_arena::isolate"][c[3]], ", nested suspensions" if c[4] else "")
 
 
 def oracle(c, toks):
@@ -51,6 +52,13 @@ def run(ctx):
     ctx.rules.append("suspend-late: the resume comes from a foreign thread 1-40 ms after the suspension, when the suspending thread has run out of work and sleeps; "
                      "arena(1) has no worker at all, so only the arena's own wake-up can deliver the resume")
     oracle_tie(ctx, "suspend-late", exe, [], late, oracle, describe=pdesc, bucket=lambda c: "suspend-late P=%d" % c[1], timeout=900)
+
+
+    wcases = [[ctx.seed * 1000 + 700000 + i, P, n, m, 0] for i, (P, n, m) in enumerate(
+        [(1, 30, 5), (1, 30, 6), (2, 30, 5), (2, 30, 6), (3, 20, 6), (1, 5, 6), (4, 20, 6), (1, 60, 6)] * ctx.scale(1, 8))]
+    ctx.rules.append("suspend-waiter: task A suspends and is resumed by a foreign thread 0-300 us later while task B (same thread on the fresh stack in arena(1), or another thread) waits for A's "
+                     "task_group, plainly or inside this_task_arena::isolate — the waiting thread is the only one that can run the resume task")
+    oracle_tie(ctx, "suspend-waiter", exe, [], wcases, oracle, describe=pdesc, bucket=lambda c: "suspend-waiter P=%d mode=%d" % (c[1], c[3]), timeout=900)
 
 
 def replay(ctx, rep):
